@@ -353,3 +353,15 @@ def u64_blob(ctx, v):
         return SymBytes([(v, 8, False)])
     import struct
     return struct.pack("<Q", v)
+
+
+def opaque_stats(ctx):
+    """symbolic mode: let estimate_elements / current_false_positive_rate / __str__ run on opaque floats (values not modelled)"""
+    if ctx.sym:
+        from . import shims
+        for name in ("bloom", "countingbloom"):
+            m = mod(name)
+            ctx.patch(m, "float", shims.FloatShim)
+            if hasattr(m, "math"):
+                ctx.patch(m, "math", shims.MathStub())
+        ctx.patch(mod("bloom"), "int", shims.IntShimOpaque)
